@@ -810,4 +810,432 @@ Section WithKeyText.
     dfree t = true -> dfree t' = true -> equivX false t a -> deviates1 t t' -> tmatch t' a = MDone false.
   Proof. intros Hf Hf' He Hd. apply (apart_expected_fails t t' a); auto. now apply deviates1_apart. Qed.
 
+
+  (* ------------------------------------------------------------------ *)
+  (* 6. the outcome matcher                                               *)
+  (* ------------------------------------------------------------------ *)
+
+  Local Open Scope string_scope.
+
+  Lemma prefixb_spec p : forall s, prefixb p s = true <-> exists q, s = p ++ q.
+  Proof.
+    induction p as [|c p IH]; intros s; cbn.
+    - split; eauto.
+    - destruct s as [|d s]; [split; [discriminate|intros [q Hq]; discriminate]|].
+      rewrite Bool.andb_true_iff, Ascii.eqb_eq, IH. split.
+      + intros [-> [q ->]]. eauto.
+      + intros [q [= -> ->]]. eauto.
+  Qed.
+
+  Lemma contains_unfold x s :
+    contains x s = prefixb x s || match s with EmptyString => false | String _ r => contains x r end.
+  Proof. destruct s; reflexivity. Qed.
+
+  Lemma contains_spec x : forall s, contains x s = true <-> exists p q, s = p ++ x ++ q.
+  Proof.
+    intros s. split.
+    - induction s as [|c s IH]; rewrite contains_unfold, Bool.orb_true_iff.
+      + intros [H|H]; [|discriminate]. apply prefixb_spec in H as [q ->]. exists "", q. reflexivity.
+      + intros [H|H].
+        * apply prefixb_spec in H as [q ->]. exists "", q. reflexivity.
+        * destruct (IH H) as (p & q & ->). exists (String c p), q. reflexivity.
+    - intros (p & q & ->). induction p as [|c p IH]; rewrite contains_unfold, Bool.orb_true_iff.
+      + left. apply prefixb_spec. exists q. reflexivity.
+      + right. exact IH.
+  Qed.
+
+  (* "the message is contained, case-insensitively; '' matches anything" *)
+  Definition msg_contained (em am : option string) : Prop :=
+    opt_text em = "" \/
+    (opt_text am <> "" /\ exists p q, lower (opt_text am) = p ++ lower (opt_text em) ++ q).
+
+  Lemma msg_ok_iff em am : msg_ok em am = true <-> msg_contained em am.
+  Proof.
+    unfold msg_ok, msg_contained, truthy_os, str_nonempty.
+    destruct (String.eqb (opt_text em) "") eqn:E1; cbn.
+    - apply String.eqb_eq in E1. tauto.
+    - apply String.eqb_neq in E1. rewrite Bool.andb_true_iff, Bool.negb_true_iff, String.eqb_neq, contains_spec.
+      tauto.
+  Qed.
+
+  (* the assertion "expectOutcome e" holds of what the Function returned *)
+  Inductive outcome_holds : option (outcome json) -> uoutcome json -> Prop :=
+  | OH_ok a : is_unwrapped_ok a = true -> outcome_holds None a
+  | OH_retry ed em el ad am al :
+      msg_contained em am -> (ed = 0 \/ ed = ad)%Z ->
+      outcome_holds (Some (Retry ed em el)) (UOut (Retry ad am al))
+  | OH_permfail em el am al :
+      msg_contained em am -> outcome_holds (Some (PermFail em el)) (UOut (PermFail am al))
+  | OH_depskip em el am al :
+      msg_contained em am -> outcome_holds (Some (DepSkip em el)) (UOut (DepSkip am al))
+  | OH_skip em el am al :
+      msg_contained em am -> outcome_holds (Some (Skip em el)) (UOut (Skip am al)).
+
+  (* what prepare can put into an ExpectOutcome: None or a non-Ok outcome *)
+  Definition preparable (e : option (outcome json)) : Prop :=
+    match e with Some (Ok _ _) => False | _ => True end.
+
+  Lemma expect_outcome_preparable spec e : expect_outcome_of spec = PExpect e -> preparable e.
+  Proof.
+    unfold expect_outcome_of.
+    repeat match goal with
+           | |- context [match ?x with _ => _ end] => destruct x; try discriminate
+           end; intros [= <-]; exact I.
+  Qed.
+
+  Theorem outcome_match_iff e a :
+    preparable e -> (outcome_match key_text e a = MDone true <-> outcome_holds e a).
+  Proof.
+    intros Hp.
+    destruct e as [[em el|em el|d el|ed em el|em el]|]; cbn in Hp; try contradiction;
+      destruct a as [v|[am al|am al|d' al|ad am al|am al]]; cbn [FnTestMatch.outcome_match];
+      try solve [split; [discriminate|intros H; inversion H]];
+      try solve [split; [intros [= H]; apply msg_ok_iff in H; now constructor
+                        |intros H; inversion H; subst; f_equal; now apply msg_ok_iff]];
+      try solve [split; [intros [= H]; now constructor|intros H; inversion H; subst; f_equal; assumption]];
+      try solve [split; [intros _; constructor; reflexivity|intros _; reflexivity]].
+    split.
+    - intros [= H]. apply Bool.andb_true_iff in H as [H1 H2]. apply msg_ok_iff in H1.
+      apply Bool.orb_true_iff in H2. rewrite !Z.eqb_eq in H2. now constructor.
+    - intros H. inversion H; subst. f_equal. apply Bool.andb_true_iff. split; [now apply msg_ok_iff|].
+      apply Bool.orb_true_iff. rewrite !Z.eqb_eq. assumption.
+  Qed.
+
+  (* dead through prepare, live for a direct caller: an expected Ok whose data
+     is falsy passes against ANY actual outcome *)
+  Lemma outcome_match_expected_ok_falsy_passes_anything :
+    outcome_match key_text (Some (Ok (Single JNull) None)) (UOut (PermFail (Some "boom") None)) = MDone true.
+  Proof. reflexivity. Qed.
+
+  Local Close Scope string_scope.
+
+  (* ------------------------------------------------------------------ *)
+  (* 7. the verdict functions, MockApi, _merge_overlay                    *)
+  (* ------------------------------------------------------------------ *)
+
+  (* expectReturn passes iff the Function returned a value (not Retry/PermFail/
+     Skip/DepSkip — in particular no resource mutation was attempted, which
+     yields Retry) and the value is what the expectation describes *)
+  Theorem verdict_return_iff e a :
+    verdict_return key_text e a = MDone true <-> exists v, a = UVal v /\ equivX false e v.
+  Proof.
+    destruct a as [v|o]; cbn.
+    - rewrite tmatch_exact. split; [eauto|intros (v' & [= <-] & H); exact H].
+    - split; [discriminate|intros (v' & [=] & _)].
+  Qed.
+
+  (* expectResource passes iff an API call was made, the Function reported the
+     Retry that goes with a mutation, and the object the mock materialised —
+     without the last-applied annotation — is what the expectation describes *)
+  Theorem verdict_resource_iff e mat a :
+    e <> JNull ->
+    (verdict_resource key_text e mat a = MDone true <->
+     exists m m' d msg loc, mat = Some m /\ a = UOut (Retry d msg loc) /\
+                            strip_last_applied m = Some m' /\ equivX false e m').
+  Proof.
+    intros He. unfold FnTestMatch.verdict_resource.
+    destruct mat as [m|].
+    - destruct a as [v|[| | |d msg loc|]]; try solve [split; [discriminate|intros (?&?&?&?&?&_&[=]&_)]].
+      destruct (strip_last_applied m) as [m'|] eqn:Es.
+      + rewrite tmatch_exact. split.
+        * intros H. exists m, m', d, msg, loc. auto.
+        * intros (m0 & m0' & ? & ? & ? & [= <-] & _ & Hs & H). rewrite Es in Hs. injection Hs as <-. exact H.
+      + split; [discriminate|]. intros (m0 & m0' & ? & ? & ? & [= <-] & _ & Hs & _). congruence.
+    - destruct e; try congruence; cbn; split; try discriminate; intros (?&?&?&?&?&[=]&_).
+  Qed.
+
+  Theorem verdict_delete_iff b o :
+    verdict key_text (ExpectDelete b) o = MDone true <-> ob_deleted o = b.
+  Proof. cbn. split; [intros [= H]; now apply Bool.eqb_prop|intros ->; now rewrite Bool.eqb_reflx]. Qed.
+
+  Theorem verdict_outcome_iff e o :
+    preparable e -> (verdict key_text (ExpectOutcome e) o = MDone true <-> outcome_holds e (ob_actual o)).
+  Proof. intros Hp. cbn. now apply outcome_match_iff. Qed.
+
 End WithKeyText.
+
+(* ---------- _strip_last_applied_annotation ---------- *)
+
+(* on what koreo sends (metadata.annotations is an object holding the
+   last-applied annotation): that annotation is removed, and `annotations`
+   with it when it was the only one *)
+Lemma strip_last_applied_sent kvs md an v :
+  lookup "metadata" kvs = Some (JMap md) -> lookup "annotations" md = Some (JMap an) ->
+  lookup LAST_APPLIED an = Some v ->
+  strip_last_applied (JMap kvs) =
+  Some (JMap (set_key "metadata"
+                (JMap (if Nat.eqb (List.length an) 1 then del_key "annotations" md
+                       else set_key "annotations" (JMap (del_key LAST_APPLIED an)) md)) kvs)).
+Proof.
+  intros Hm Ha Hl. unfold strip_last_applied.
+  destruct kvs as [|kv kvs']; [discriminate|]. rewrite Hm, Ha. cbn [py_len].
+  destruct an as [|a1 [|a2 an']]; [discriminate|reflexivity|]. cbn [List.length Nat.eqb].
+  now rewrite Hl.
+Qed.
+
+(* observations on objects koreo never sends (no last-applied annotation):
+   a sole foreign annotation is dropped, two foreign annotations raise KeyError *)
+Lemma strip_drops_sole_foreign_annotation :
+  strip_last_applied (JMap [("metadata", JMap [("annotations", JMap [("team", JStr "core")])])]%string)
+  = Some (JMap [("metadata", JMap [])]%string).
+Proof. reflexivity. Qed.
+
+Lemma strip_raises_without_last_applied :
+  strip_last_applied
+    (JMap [("metadata", JMap [("annotations", JMap [("a", JStr "1"); ("b", JStr "2")])])]%string) = None.
+Proof. reflexivity. Qed.
+
+(* ---------- _merge_overlay / MockApi ---------- *)
+
+Lemma lookup_set_key_other {A} k k0 (v : A) kvs : k <> k0 -> lookup k (set_key k0 v kvs) = lookup k kvs.
+Proof.
+  intros Hne. induction kvs as [|[k1 v1] r IH]; cbn.
+  - destruct (String.eqb k k0) eqn:E; [apply String.eqb_eq in E; congruence|reflexivity].
+  - destruct (String.eqb k0 k1) eqn:E1; cbn.
+    + apply String.eqb_eq in E1. subst.
+      destruct (String.eqb k k1) eqn:E; [apply String.eqb_eq in E; congruence|reflexivity].
+    + destruct (String.eqb k k1); auto.
+Qed.
+
+Lemma fold_set_key_lookup (o : list (string * json)) : forall b k,
+  NoDup (map fst o) ->
+  lookup k (fold_left (fun acc kv => set_key (fst kv) (snd kv) acc) o b) =
+  match lookup k o with Some v => Some v | None => lookup k b end.
+Proof.
+  induction o as [|[k0 v0] r IH]; intros b k Hnd; cbn [fold_left lookup fst snd]; [reflexivity|].
+  inversion Hnd as [|? ? Hnin Hnd']; subst. rewrite IH by assumption.
+  destruct (String.eqb k k0) eqn:E.
+  - apply String.eqb_eq in E. subst.
+    assert (lookup k0 r = None) as -> by (apply lookup_none_notin; exact Hnin).
+    apply lookup_set_key.
+  - apply String.eqb_neq in E. destruct (lookup k r); [reflexivity|]. now apply lookup_set_key_other.
+Qed.
+
+(* what the mock does with a body sent over an existing resource: every
+   top-level key of the body replaces the current one wholesale; the other
+   top-level keys of the current resource stay *)
+Theorem merge_overlay_toplevel b o :
+  NoDup (map fst o) ->
+  exists m, merge_overlay (JMap b) (JMap o) = Some (JMap m) /\
+            forall k, lookup k m = match lookup k o with Some v => Some v | None => lookup k b end.
+Proof. intros Hnd. eexists. split; [reflexivity|]. intros k. now apply fold_set_key_lookup. Qed.
+
+(* it is NOT a deep merge: a nested key the body does not mention is lost *)
+Lemma merge_overlay_not_deep :
+  merge_overlay (JMap [("a", JMap [("x", JInt 1); ("y", JInt 2)])]%string)
+                (JMap [("a", JMap [("x", JInt 9)])]%string)
+  = Some (JMap [("a", JMap [("x", JInt 9)])]%string).
+Proof. reflexivity. Qed.
+
+Lemma mock_calls_app m cs c :
+  mock_calls m (cs ++ [c]) = match mock_calls m cs with Some m' => mock_call m' c | None => None end.
+Proof.
+  revert m. induction cs as [|c0 r IH]; intros m; cbn.
+  - destruct (mock_call m c); reflexivity.
+  - destruct (mock_call m c0); [apply IH|reflexivity].
+Qed.
+
+Definition is_delete (c : api_call) : bool := match c with CallDelete => true | _ => false end.
+
+Lemma mock_call_deleted m c m' :
+  mock_call m c = Some m' -> m_deleted m' = m_deleted m || is_delete c.
+Proof.
+  destruct c; cbn.
+  - intros [= <-]. cbn. now rewrite Bool.orb_true_r.
+  - destruct (m_current m) as [cur|]; [destruct (py_truthy cur); [destruct (merge_overlay cur body)|]|];
+      try discriminate; intros [= <-]; cbn; now rewrite Bool.orb_false_r.
+Qed.
+
+(* expectDelete looks at a flag that is set iff a DELETE was issued *)
+Theorem mock_deleted_iff cur cs m :
+  mock_calls (mock_init cur) cs = Some m -> (m_deleted m = true <-> In CallDelete cs).
+Proof.
+  assert (G : forall l m0 m1, mock_calls m0 l = Some m1 ->
+                              m_deleted m1 = m_deleted m0 || existsb is_delete l).
+  { induction l as [|c r IH]; intros m0 m1; cbn.
+    - intros [= <-]. now rewrite Bool.orb_false_r.
+    - destruct (mock_call m0 c) as [m'|] eqn:E; [|discriminate]. intros H.
+      rewrite (IH _ _ H), (mock_call_deleted _ _ _ E). now rewrite Bool.orb_assoc. }
+  intros H. rewrite (G _ _ _ H). cbn. rewrite existsb_exists. split.
+  - intros (c & Hin & Hc). destruct c; [exact Hin|discriminate].
+  - intros Hin. exists CallDelete. auto.
+Qed.
+
+Section Sent.
+  Variable key_text : json -> string.
+
+  (* "expectResource only when a create or patch was attempted": if the
+     expectation names at least one ordinary key, a passing expectResource
+     means the last API call the Function made sent a body *)
+  Theorem resource_pass_needs_send cur cs m ek a k :
+    mock_calls (mock_init cur) cs = Some m ->
+    In k (plain_keys ek) ->
+    verdict_resource key_text (JMap ek) (m_mat m) a = MDone true ->
+    exists cs' body, cs = cs' ++ [CallSend body].
+  Proof.
+    intros Hm Hk Hv.
+    destruct cs as [|c0 r].
+    - cbn in Hm. injection Hm as <-. cbn in Hv. discriminate.
+    - destruct (@exists_last _ (c0 :: r)) as (cs' & c & Hc); [discriminate|]. rewrite Hc in *.
+      rewrite mock_calls_app in Hm. destruct (mock_calls (mock_init cur) cs') as [m'|]; [|discriminate].
+      destruct c as [|body]; [|eauto]. exfalso.
+      cbn in Hm. injection Hm as <-. cbn [m_mat] in Hv.
+      apply verdict_resource_iff in Hv as (m0 & m0' & d & msg & loc & [= <-] & _ & Hs & He); [|discriminate].
+      cbn in Hs. injection Hs as <-.
+      apply plain_keys_In in Hk as [Hin Hd].
+      inversion He as [? ? ? Hp|?|?|?|s' tk ak sk mf Hsk Hmf Hkeys _ _ _]; subst; [discriminate|].
+      apply (Hkeys k Hd) in Hin. exact Hin.
+  Qed.
+
+  (* the side condition is needed: an expectation made only of directive
+     keys passes against the {} the mock materialises for a DELETE *)
+  Lemma resource_directive_only_passes_on_delete :
+    exists m, (mock_calls (mock_init (Some (JMap [("kind"%string, JStr "K"%string)]))) [CallDelete] = Some m) /\
+      (verdict_resource key_text (JMap [(K_SET, JList [])]) (m_mat m)
+                        (UOut (Retry 15%Z (Some "Deleting"%string) None)) = MDone true).
+  Proof. eexists. split; reflexivity. Qed.
+End Sent.
+
+(* ------------------------------------------------------------------ *)
+(* 4. the strict reading and where the comparator departs from it      *)
+(* ------------------------------------------------------------------ *)
+
+Definition is_bool (j : json) : bool := match j with JBool _ => true | _ => false end.
+Definition is_map (j : json) : bool := match j with JMap _ => true | _ => false end.
+
+(* members of a set-compared list are equal: Python ==, but a boolean is
+   only equal to a boolean (as everywhere else in the comparator) *)
+Definition strict_eq (x y : json) : bool := py_eq x y && Bool.eqb (is_bool x) (is_bool y).
+
+Section Strict.
+  Variable key_text : json -> string.
+
+  (* a map-directed value is a list of objects, keyed by the fields *)
+  Definition keyed_list (fields : list json) (v : json) : option (list (string * json)) :=
+    match v with
+    | JList l => if forallb is_map l then keyed key_text fields l [] else None
+    | _ => None
+    end.
+
+  Notation equivX := (equiv py_eq (list_to_object key_text)).
+  Notation equivS := (equiv strict_eq keyed_list).
+
+  Lemma keyed_list_lax fields v o : keyed_list fields v = Some o -> list_to_object key_text fields v = Some o.
+  Proof.
+    unfold keyed_list, FnTestMatch.list_to_object. destruct v; try discriminate.
+    destruct (forallb is_map l); [|discriminate]. cbn. auto.
+  Qed.
+
+  Lemma strict_eq_lax x y : strict_eq x y = true -> py_eq x y = true.
+  Proof. unfold strict_eq. now intros [H _]%Bool.andb_true_iff. Qed.
+
+  (* the strict reading implies the one the comparator implements *)
+  Lemma equiv_strict_lax s t a : equivS s t a -> equivX s t a.
+  Proof.
+    induction 1 as [s t a Ht Ha He|s b|tl al Hl Hp IH|tl al Ht Ha H1 H2
+                   |s tk ak sk mf Hsk Hmf Hk Hn Hm IHm Ho IHo].
+    - now apply Eq_scalar.
+    - apply Eq_bool.
+    - apply Eq_list; auto.
+    - apply Eq_set; auto.
+      + intros x Hx. destruct (H1 x Hx) as (y & Hy & E). eauto using strict_eq_lax.
+      + intros y Hy. destruct (H2 y Hy) as (x & Hx & E). eauto using strict_eq_lax.
+    - apply Eq_map with (sk := sk) (mf := mf); auto.
+      + intros k v w fields Hd Hv Hw Hf. destruct (Hn k v w fields Hd Hv Hw Hf) as [N1 N2].
+        destruct (keyed_list fields v) eqn:E1; [|congruence].
+        destruct (keyed_list fields w) eqn:E2; [|congruence].
+        rewrite (keyed_list_lax _ _ _ E1), (keyed_list_lax _ _ _ E2). split; discriminate.
+      + intros k v w fields tobj aobj Hd Hv Hw Hf Et Ea.
+        destruct (Hn k v w fields Hd Hv Hw Hf) as [N1 N2].
+        destruct (keyed_list fields v) as [o1|] eqn:E1; [|congruence].
+        destruct (keyed_list fields w) as [o2|] eqn:E2; [|congruence].
+        rewrite (keyed_list_lax _ _ _ E1) in Et. rewrite (keyed_list_lax _ _ _ E2) in Ea.
+        injection Et as <-. injection Ea as <-. eapply IHm; eauto.
+  Qed.
+
+  (* "an assertion derived from the Function's actual behaviour passes":
+     whatever the expectation (directives included), if the actual value is
+     what it describes under the STRICT reading, the comparator passes *)
+  Theorem tmatch_complete t a : equivS false t a -> tmatch key_text t a = MDone true.
+  Proof. intros H. apply tmatch_exact. now apply equiv_strict_lax. Qed.
+
+  (* without directives the two readings coincide *)
+  Lemma equiv_dfree_any E1 K1 E2 K2 t a :
+    dfree t = true -> equiv E1 K1 false t a -> equiv E2 K2 false t a.
+  Proof.
+    intros Hf H. remember false as s eqn:Es. revert Hf.
+    induction H as [s t a Ht Ha He|s b|tl al Hl Hp IH|tl al Ht Ha H1 H2
+                   |s tk ak sk mf Hsk Hmf Hk Hn Hm IHm Ho IHo]; intros Hf.
+    - now apply Eq_scalar.
+    - apply Eq_bool.
+    - apply Eq_list; auto. intros i x y Hx Hy. eapply IH; eauto. eapply dfree_nth; eauto.
+    - discriminate.
+    - rewrite (dfree_set_keys _ Hf) in Hsk. rewrite (dfree_map_fields _ Hf) in Hmf.
+      injection Hsk as <-. injection Hmf as <-.
+      apply Eq_map with (sk := []) (mf := []); auto using dfree_set_keys, dfree_map_fields.
+      + intros k v w fields _ _ _ Hl. discriminate.
+      + intros k v w fields tobj aobj _ _ _ Hl. discriminate.
+      + intros k v w Hd Hv Hw _. eapply IHo; eauto. eapply dfree_lookup; eauto.
+  Qed.
+
+  (* tmatch_iff, for an expectation without directives: pass iff the actual
+     value is exactly the expected one — equal, nothing missing, nothing extra *)
+  Theorem tmatch_iff_dfree t a :
+    dfree t = true -> (tmatch key_text t a = MDone true <-> equivS false t a).
+  Proof.
+    intros Hf. rewrite tmatch_exact. split; apply equiv_dfree_any; exact Hf.
+  Qed.
+
+  (* ---------- where the comparator departs from the strict reading ---------- *)
+
+  Local Open Scope string_scope.
+
+  (* F1: in a set-compared list a boolean and the equal number are conflated *)
+  Theorem tmatch_sound_strict_refuted_set_bool :
+    exists t a, tmatch key_text t a = MDone true /\ ~ equivS false t a.
+  Proof.
+    exists (JMap [("l", JList [JBool true]); (K_SET, JList [JStr "l"])]), (JMap [("l", JList [JInt 1])]).
+    split; [reflexivity|]. intros H.
+    inversion H as [? ? ? Hp|?|?|?|s' tk ak sk mf Hsk Hmf Hkeys _ _ Ho]; subst; [discriminate|].
+    vm_compute in Hsk, Hmf. injection Hsk as <-. injection Hmf as <-.
+    specialize (Ho "l" (JList [JBool true]) (JList [JInt 1]) eq_refl eq_refl eq_refl eq_refl).
+    vm_compute in Ho.
+    inversion Ho as [? ? ? Hp|?|?|tl al _ _ H1 _|]; subst; [discriminate|].
+    destruct (H1 (JBool true) (or_introl eq_refl)) as (y & [<-|[]] & E). discriminate.
+  Qed.
+
+  (* F2: with a map directive, an actual value that is not a list of objects
+     makes the comparator RAISE (no verdict at all) *)
+  Theorem tmatch_raises :
+    exists t a, tmatch key_text t a = MRaised.
+  Proof.
+    exists (JMap [("items", JList [JMap [("name", JStr "a")]]); (K_MAP, JMap [("items", JList [JStr "name"])])]),
+           (JMap [("items", JNull)]).
+    reflexivity.
+  Qed.
+
+  (* F2b: ... and '' / {} are accepted where the empty list is expected *)
+  Theorem tmatch_sound_strict_refuted_map_empty :
+    exists t a, tmatch key_text t a = MDone true /\ ~ equivS false t a.
+  Proof.
+    exists (JMap [("items", JList []); (K_MAP, JMap [("items", JList [JStr "name"])])]),
+           (JMap [("items", JStr "")]).
+    split; [reflexivity|]. intros H.
+    inversion H as [? ? ? Hp|?|?|?|s' tk ak sk mf Hsk Hmf Hkeys Hn _ _]; subst; [discriminate|].
+    vm_compute in Hsk, Hmf. injection Hsk as <-. injection Hmf as <-.
+    destruct (Hn "items" (JList []) (JStr "") [JStr "name"] eq_refl eq_refl eq_refl eq_refl) as [_ N].
+    apply N. reflexivity.
+  Qed.
+
+  (* observation: directive-named keys of the ACTUAL value are invisible *)
+  Lemma actual_directive_key_ignored :
+    tmatch key_text (JMap [("a", JInt 1)]) (JMap [("a", JInt 1); (K_SET, JList [JStr "a"])]) = MDone true.
+  Proof. reflexivity. Qed.
+
+  (* observation: duplicates collapse under both directives (documented
+     "set" / "collection keyed by" semantics) *)
+  Lemma set_duplicates_collapse :
+    tmatch key_text (JMap [("l", JList [JInt 1; JInt 2]); (K_SET, JList [JStr "l"])])
+                    (JMap [("l", JList [JInt 2; JInt 1; JInt 1])]) = MDone true.
+  Proof. reflexivity. Qed.
+End Strict.
